@@ -123,8 +123,13 @@ func recovery(logger *slog.Logger, c Context, handle RecoveryFunc) {
 }
 
 func connIsBroken(err any) bool {
-	//goland:noinspection GoTypeAssertionOnErrors
-	if ne, ok := err.(*net.OpError); ok {
+	e, ok := err.(error)
+	if !ok {
+		return false
+	}
+	// The network error may be wrapped (fmt.Errorf with %w, the tls layer), so search the whole chain.
+	var ne *net.OpError
+	if errors.As(e, &ne) && ne != nil {
 		var se *os.SyscallError
 		if errors.As(ne, &se) {
 			seStr := strings.ToLower(se.Error())
